@@ -100,6 +100,54 @@ def is_tracked_reply(d, tr):
             and int.from_bytes(d.data[20:24], 'big') == tr['mid'])
 
 
+def run_coincide(kind, k):
+    """the answer to the k-th transmission is held back and becomes readable in the very pass in which the timer of that
+    transmission runs out (time passes, then one pass with the datagram readable): the pass serves the socket, so the request
+    counts as answered and is neither sent again nor given up.  Returns observations like run_retrans."""
+    w, tr = build_request(kind)
+    tx, accepted_at = [], None
+    held = None
+    sa_spi = tr['spi_i']
+    n = 0
+    for _ in range(80):
+        for d in list(w.net):
+            if is_tracked_request(d, tr):
+                tx.append((w.clock, d.data))
+                if n < k:
+                    w.step(('drop', d.id))          # earlier transmissions are lost
+                else:
+                    w.step(('deliver', d.id))
+                n += 1
+            elif is_tracked_reply(d, tr) and held is None and accepted_at is None:
+                held = d
+            elif d is not held:
+                w.step(('deliver', d.id))
+        if any(d is not held for d in w.net):
+            continue                                 # what those deliveries produced is looked at before any time passes
+        a_sa = next((x for x in w.endpoints['A'].controller.ike_sas if bytes(x.spi_i) == sa_spi or bytes(x.my_spi) == sa_spi), None)
+        if held is not None and accepted_at is None:
+            if a_sa is None:
+                break
+            w.step(('advance', max(0.0, a_sa.retransmit_at - w.clock) + 0.01))
+            w.step(('deliver', held.id))
+            accepted_at = w.clock - 0.001            # anything A sends from this pass on comes after the answer was readable
+            held = 'done'
+            continue
+        if accepted_at is not None and not w.net:
+            w.step(('tick', 1.0))
+            if w.clock > tr['t0'] + 60:
+                break
+            continue
+        dl = P.next_retransmit_deadline(w)
+        w.step(('tick', (max(0.0, dl - w.clock) + 0.01) if dl is not None else 1.0))
+    a = w.endpoints['A']
+    heldsas = [x for x in a.controller.ike_sas if bytes(x.spi_i) == sa_spi or bytes(x.my_spi) == sa_spi]
+    return dict(tx=tx, accepted_at=accepted_at, t0=tr['t0'], alive=a.alive and w.endpoints['B'].alive,
+                dead=[e.dead_reason for e in w.endpoints.values() if not e.alive],
+                still_held=[x.state.name for x in heldsas], waiting=[x.state.name for x in a.controller.ike_sas if x.state in REQ_SENT_STATES],
+                sad=sorted(a.kernel.sad), orphan=P.sad_diff(a) if a.alive else None, first=tr['data'], w=w)
+
+
 def run_retrans(kind, lost_req, lost_rep, ticks, horizon=45.0, oneway=False):
     """returns observations of one deterministic run.  oneway: everything A sends is lost while B keeps talking
     (its own DPD probes and their retransmissions reach A)"""
@@ -202,6 +250,8 @@ def retrans_cases():
                 if any(i in lp for i in lr) and not ck.quick:
                     pass
                 yield (kind, tuple(sorted(lr)), tuple(sorted(lp)), tuple(fine), True)
+        for k in range(0, MAXR):
+            yield (kind, 'coincide', k)
         if kind not in ('init', 'init-cookie', 'init-invalid-ke', 'auth'):
             # one-way loss: none of A's datagrams arrives, B's own probes keep arriving at A
             yield (kind, tuple(range(n + 2)), (), tuple(fine), True, True)
@@ -212,6 +262,19 @@ def retrans_cases():
 
 
 def work_retrans(case):
+    if case[1] == 'coincide':
+        kind, _, k = case[:3]
+        try:
+            obs = run_coincide(kind, k)
+        except NotSent:
+            return [('request-never-sent', 'the %s request is not sent at all' % kind)], (0, False, False)
+        res = [r for r in judge_retrans(kind, obs, False) if r[0] in ('daemon-died', 'retransmit-after-answer', 'sad-mismatch', 'not-identical')]
+        if obs['accepted_at'] is None:
+            raise HarnessError('coincide %s/%d: the answer was never delivered' % (kind, k))
+        if kind not in ('delete-ike', 'delete-after-rekey') and not obs['still_held'] and not kind.startswith('rekey-ike'):
+            res.append(('given-up-although-answered', 'the answer became readable in the pass in which the timer ran out, and the '
+                        'IKE_SA was given up all the same'))
+        return [(sig + ':answer-in-the-timeout-pass', msg) for sig, msg in res], (len(obs['tx']), True, bool(obs['still_held']))
     kind, lr, lp, ticks, fine = case[:5]
     oneway = len(case) > 5 and case[5]
     try:
@@ -539,6 +602,10 @@ def main():
         evaluations += 1
         outcomes[('retrans', case[0], outcome)] += 1
         for sig, msg in res:
+            if case[1] == 'coincide':
+                ck.violation('retrans:%s:%s:tx%d' % (sig, case[0], case[2]), '%s, request kind %s; the answer to transmission %d '
+                             'is the one that arrives' % (msg, case[0], case[2] + 1), dict(part='retrans', case=case))
+                continue
             ck.violation('retrans:%s:%s:%s%s' % (sig, case[0], 'fine' if case[4] else 'coarse', ':one-way-loss' if len(case) > 5 else ''),
                          '%s, request kind %s, lost request transmissions %s, lost replies %s, ticks %s' % (
                              msg, case[0], list(case[1]), list(case[2]), list(case[3])), dict(part='retrans', case=case))
